@@ -95,7 +95,8 @@ class Verdict:
 class Abs:
     """evaluation of SVs of one method under one case"""
 
-    def __init__(self, data_f, pos_f, case, needle=None, params=()):
+    def __init__(self, data_f, pos_f, case, needle=None, params=(), const=None):
+        self.const = const or (lambda name: None)  # class-level constants of the buffer class
         self.D, self.Pf = data_f, pos_f
         self.case = case
         self.rng = dict(CASES[case])
@@ -133,6 +134,9 @@ class Abs:
                 return ("seq", Lin(0), self.N)
             if sv[2] == self.Pf:
                 return ("lin", self.P)
+            c = self.const(sv[2])
+            if isinstance(c, int) and not isinstance(c, bool):
+                return ("lin", Lin(c))
             return None
         if t == "p":
             return ("chunk", sv[1])
@@ -259,6 +263,8 @@ class Abs:
             return ("lin", Lin(0))
         if x[0] == "seq":
             return ("lin", x[2] - x[1])
+        if x[0] == "cat":
+            return ("lin", x[1][2] - x[1][1] + sym("C"))  # C = length of the chunk
         return None
 
     def truth(self, sv):
@@ -311,6 +317,19 @@ class Abs:
             return False if lo == hi == 0 else (True if lo > 0 or hi < 0 else None)
         return None
 
+    def in_domain(self, g):
+        """the condition is a comparison of buffer quantities (its truth may still depend on their size)"""
+        t = g[0]
+        if t == "not":
+            return self.in_domain(g[1])
+        if t == "bool":
+            return all(self.in_domain(x) for x in g[2])
+        if t == "cmp":
+            a, b = self.ev(g[2]), self.ev(g[3])
+            return bool(a) and bool(b) and a[0] == "lin" and b[0] == "lin"
+        v = self.ev(g)
+        return v is not None and v[0] in ("lin", "seq", "empty")
+
     def is_empty(self, v):
         if not v:
             return None
@@ -352,6 +371,15 @@ class BufSem:
         self.D, self.Pf = data_f[0], pos_f[0]
         self._paths = {}
         self._kind = {}
+
+    def _const(self, name):
+        from sa.consteval import ConstEval, NotConstant
+        if not hasattr(self, "_ce"):
+            self._ce = ConstEval(self.M)
+        try:
+            return self._ce.class_const(self.key[0], self.key[1], name)
+        except NotConstant:
+            return None
 
     def paths(self, name):
         if name not in self._paths:
@@ -406,12 +434,17 @@ class BufSem:
         for case in cases:
             n_cons = 0
             for p in ps:
-                A = Abs(self.D, self.Pf, case, needle, fn.params)
+                A = Abs(self.D, self.Pf, case, needle, fn.params, self._const)
                 cons = True
                 for g, pol, ln in p.guards:
                     b = A.truth(g)
                     if b is None:
-                        return Verdict(None, f"{name}: condition `{show_sv(g)}` is outside the buffer domain (case {case})", line=ln)
+                        if not A.in_domain(g):
+                            if kind in ("pop-line", "trim-needle") and any(frm != A.P or end != A.N for nd, frm, end in A.finds):
+                                return Verdict(False, f"{name}: the search does not run from the first unconsumed octet to the end of the buffer (when {self._case_text(case, needle)})",
+                                               witness="; ".join(f"search from {frm} to {end}" for nd, frm, end in A.finds), line=ln)
+                            return Verdict(None, f"{name}: condition `{show_sv(g)}` is outside the buffer domain (case {case})", line=ln)
+                        continue  # a comparison the case does not decide (e.g. position against a constant): both outcomes are possible
                     if b != pol:
                         cons = False
                         break
@@ -491,7 +524,9 @@ class BufSem:
                 return True
             u, end = U()
             if u is not None and u == P and end == N:
-                return False, "keeps the consumed octets stored (position not reset to the start of a shortened buffer)"
+                # content preserved but nothing released on this path: fine for what the reader sees; boundedness (C19) needs the release
+                info.setdefault("not_released", []).append(case)
+                return True
             return False, "does not preserve exactly the unconsumed suffix"
         if kind == "clear":
             if A.is_empty(d) and q == ("lin", Lin(0)):
@@ -531,8 +566,9 @@ class BufSem:
         if k not in self._kind:
             res = "unknown"
             for kind in ("extend", "avail", "len", "pop-octet", "trim-pos"):
-                if self.check(name, kind).ok is True:
-                    res = kind
+                v = self.check(name, kind)
+                if v.ok is True and not (kind == "trim-pos" and len((v.info or {}).get("not_released", [])) >= 2):
+                    res = kind  # (a trim that never releases anything is not a trim: e.g. a method that changes nothing)
                     break
             else:
                 for nd in needles:
